@@ -86,6 +86,7 @@ class Registry:
         self.val_qual = {}
         self._next_cid = 1
         self.aliases = {}    # annotation text -> type string
+        self.unbounded = set()   # Real-valued fields that may hold Decimal('Infinity')
 
     def klass(self, name, qualname=None, **kw):
         fields = {k: self.parse(v) if isinstance(v, str) else v for k, v in (kw.pop("fields", None) or {}).items()}
